@@ -35,7 +35,7 @@ claim('C01', 'proof', K1 + '; ' + K2 + '; ' + BD,
       'lookups through an already built name map are under contract (index 0 is an index); the construction of the map is not: it is decided by the bounded header differential (images with header tables anywhere and oversized entries: lookups by name and index against the enumeration, on fresh and used objects) and exercised by the C10 repeated-query fault injection; constructors of Dynamic/Relocation/Attributes sections and the eight linked-section helpers are assumed contracts at the dispatch (checked under their own properties where listed); Sem of construct node kinds assumed')
 claim('C02', 'proof', K1 + '; ' + K2 + '; ' + BD,
       'chunked C-string reader proved to return the bytes up to the first NUL for any length; string table lookup; Section.__init__ compression header and Section.data (NOBITS / zlib with size check / raw) ; Segment.data; interpreter name; address_offsets soundness; section_in_segment proved equal to the binutils strict rule on every path; Elf_Chdr K2',
-      'zlib.decompressobj assumed (documented contract); address_offsets completeness (every containing PT_LOAD segment is yielded, in order) and independence between same-named sections are covered by the bounded contents differential only (overlapping / nested / abutting segments; same-named compressed sections); binutils rule scoped to the four condition groups of the statement')
+      'zlib.decompressobj assumed (documented contract); address_offsets: each yielded offset (soundness) and, per iteration, a yield exactly when the segment contains the range, with the enumeration consumed to its end and iter_segments passing on exactly the segments of the asked type (the completeness half; their composition over the whole table is also decided by the bounded contents differential: overlapping / nested / abutting segments); independence between same-named sections is covered by the bounded differential only; binutils rule scoped to the four condition groups of the statement')
 claim('C03', 'proof', K1 + '; ' + K2 + '; ' + BD,
       'Elf_Sym (both classes, bit structs), syminfo, hash headers K2; symbol addressing by sh_entsize, names through the linked string table, index section, syminfo; SysV and GNU hash functions proved equal to the standard 32-bit functions for every name; GNU symbol-count recovery proved (walks the highest bucket chain to its end bit), SysV count; linked-section validators',
       'hash lookups: the GNU chain walk (found and fixed a shared-stream defect) and the SysV chain walk are under contract (every index on the chain examined, candidates are the symbols of those indices; no termination claim for cyclic SysV chains); the bloom filter test is an ASSUMED contract, covered with the end-to-end behaviour by the bounded hash differential (tables built from the specification, engineered collisions); the construction of the name map of get_symbol_by_name is not under contract: decided by the bounded symbol-table differential (repeated, empty and non-ASCII names, fresh and used objects)')
